@@ -69,7 +69,20 @@ BASELINE_MISSED = {"C02-2": "C02 now sets stream trailers that share keys with t
  "C17r5-2": "go_package import paths with further elements (acme-weather/v2, x.y/v3, v2, api/v1) and no alias",
  "C18r5-1": "code_<digits> with junk before or after the digits must be rejected (signed numbers stay grey)",
  "C19r5-1": "the recovery function returns its coded error wrapped (fmt.Errorf %w, errors.Join)",
- "C19r5-2": "the panic is raised inside conn.Send by the handler's codec (streaming kinds, binary codec)"}
+ "C19r5-2": "the panic is raised inside conn.Send by the handler's codec (streaming kinds, binary codec)",
+ "C02r6-2": "error messages of 67–320 KB (the unary Connect error body then exceeds any 'errors are small' cap)",
+ "C04r6-2": "trailer mode with-error: the HTTP trailers are present although the body ended in a transport error",
+ "C05r6-2": "NOT detected, by design: canceled under HTTP 499 is what later versions of the Connect specification prescribe; the reference decoder accepts both tables (meta.json: not_detected_by_design)",
+ "C07r6-1": "a gRPC-Web trailer frame (flag 0x80, header-like payload) inside a plain gRPC request",
+ "C11r6-1": "failing handlers may return a plain Go error after setting trailers (trailers must still reach the error's metadata)",
+ "C11r6-2": "request header keys outside the reserved prefixes that resemble HTTP's own (Accept-Language, Content-Language, …)",
+ "C12r6-2": "requests may announce their Content-Length (a bidi procedure over HTTP/1.x must answer 505 all the same)",
+ "C13r6-1": "the unary handler keeps some *connect.Request values; they are compared with their snapshot at the end of the plan",
+ "C13r6-2": "every other bidi call starts its receiver first; the sender sets the request headers while Receive is already waiting",
+ "C14r6-2": "flood: ≥ 3 MB of Sends after the handler has finished (and after a 5 s virtual pause) cannot all succeed",
+ "C15r6-1": "handlers return their context's error wrapped with %w",
+ "C17r6-2": "services without methods",
+ "C19r6-3": "the recovery function returns a 2.5 KB message (a stack trace)"}
 rows = []
 for d in sorted(glob.glob(os.path.join(ROOT, "seeded", "C*-*"))):
     name = os.path.basename(d)
@@ -81,7 +94,7 @@ for d in sorted(glob.glob(os.path.join(ROOT, "seeded", "C*-*"))):
     det = [k.replace("check_", "") + " %.0fs" % v["wall_s"] for k, v in ev.items() if k.startswith("check_") and v.get("detected")]
     summ = re.sub(r"\s+", " ", str(m.get("summary", "")))[:170].replace("|", "/")
     needs = re.sub(r"\s+", " ", str(m.get("needs", "")))[:150].replace("|", "/")
-    note = "missed at first; " + BASELINE_MISSED[name] if name in BASELINE_MISSED else "detected as first evaluated"
+    note = ("missed at first; " + BASELINE_MISSED[name]).replace("missed at first; NOT detected", "NOT detected") if name in BASELINE_MISSED else "detected as first evaluated"
     if "r2-" in name:
         note = "round 2: " + note
     if "r3-" in name:
@@ -90,6 +103,8 @@ for d in sorted(glob.glob(os.path.join(ROOT, "seeded", "C*-*"))):
         note = "round 4: " + note
     if "r5-" in name:
         note = "round 5: " + note
+    if "r6-" in name:
+        note = "round 6: " + note
     rows.append("| %s | %s | %s | %s | %s | %s |" % (name, summ, needs, "yes" if valid else "NO", ", ".join(det) or "**not detected**", note))
 table = "| seeded | change | needs | confirmed (applies, suite passes, demo fails/passes) | detected by `./verif check <prop>` | history |\n|---|---|---|---|---|---|\n" + "\n".join(rows)
 p = os.path.join(ROOT, "DESIGN.md")
